@@ -1,4 +1,4 @@
-CONSTANTS Carrier = "rtsp"
+CONSTANTS Carrier = "wsp"
  MaxHist = 3
  EmitAt = 3
 INIT Init
